@@ -367,6 +367,78 @@ def lineage_histories(ctx, r):
     ctx.cov["distribution"]["lineage-history:distinct-statements"] = len(distinct)
 
 
+# ---------------------------------------------------------------------------------------------------------------------
+# lineage requests from several threads on ONE analyzer and provider
+# ---------------------------------------------------------------------------------------------------------------------
+
+THREAD_POOL = [
+    "WITH w AS (SELECT a, b FROM t1) SELECT w.a, w.b FROM w",
+    "WITH w AS (SELECT a, c FROM t2) SELECT w.a, w.c FROM w",
+    "WITH w AS (SELECT b FROM s.t), v AS (SELECT b FROM w) SELECT v.b FROM v",
+    "WITH w AS (SELECT c FROM t3) SELECT w.c, y.a FROM w JOIN t1 y ON w.c = y.c",
+    "SELECT x.a FROM (SELECT a FROM t1) x",
+    "SELECT x.c, y.b FROM (SELECT a, c FROM t2) x JOIN (SELECT a, b FROM t3) y ON x.a = y.a",
+    "SELECT x.b FROM (SELECT b FROM db1.orders) x",
+    "SELECT a, b FROM t1",
+    "SELECT z.a FROM s.t z",
+    "SELECT w.a FROM w",
+    "SELECT x.a FROM x",
+    "INSERT INTO t9 SELECT w.a, w.b, w.c FROM (SELECT a, b, c FROM t1) w",
+    "WITH w AS (SELECT a FROM t2) INSERT INTO t9 (a) SELECT w.a FROM w",
+]
+
+
+def lineage_threads(ctx, r, runs=None):
+    """`LINTHR`: the statements of THREAD_POOL (same WITH name / derived alias with different bodies in different statements, the same names as base
+    tables, statements without WITH) analysed from 6 threads on one shared analyzer+provider; every call must give the statement's own lineage"""
+    runs = runs if runs is not None else (2 if ctx.quick else 12)
+    reqs = []
+    for _ in range(runs):
+        pool = r.shuffle(THREAD_POOL)
+        reqs.append("LINTHR %d %d MYSQL %s" % (r.choice([4, 6, 8]), 400 if ctx.quick else 1500, " ".join(E.enhex(t) for t in pool)))
+    import os
+    old_limit = os.environ.get("MSQ_REQ_TIMEOUT")
+    os.environ["MSQ_REQ_TIMEOUT"] = "120"            # one request = thousands of calls
+    try:
+        answers = fresh_process_each(reqs)
+    finally:
+        if old_limit is None: os.environ.pop("MSQ_REQ_TIMEOUT", None)
+        else: os.environ["MSQ_REQ_TIMEOUT"] = old_limit
+    for q_, a in zip(reqs, answers):
+        if not a.startswith("OK "):
+            raise E.Infra("LINTHR: " + a[:200])
+        f = dict(x.split("=", 1) for x in a.split(" ")[1:])
+        ctx.cov["evaluations"] += int(f["calls"])
+        ctx.count("lineage-threads:calls", int(f["calls"]))
+        if "nondeterministic-alone" in f:
+            pfam.report(ctx, "lineage:nondeterministic", {"kind": "lineage-threads", "request": q_, "observed": a[:400], "detail": "a statement alone gives two different lineages",
+                                                         "oracle": "c12/c17: lineage depends only on the statement and the catalogue", "how_found": "stream lineage threads"})
+        elif f["mismatches"] != "0":
+            stmt = bytes.fromhex(f["first"]).decode("utf-8")
+            others = unhexlist(f.get("inflight", ""))
+            ctx.count("lineage-threads:mismatching-calls", int(f["mismatches"]))
+            pfam.report(ctx, "lineage:shared-analyzer-threads", {"kind": "lineage-threads", "request": q_, "input": stmt, "in_flight": others, "observed": f["got"][:400], "alone": f["alone"][:400],
+                                                                "detail": "%s of %s calls on the shared analyzer differ from the statement's own lineage; first: %r while %r were being analysed by other threads"
+                                                                          % (f["mismatches"], f["calls"], stmt, others),
+                                                                "oracle": "c12/c17: a statement's lineage on an analyzer shared by several threads is the lineage it gives alone on a fresh analyzer",
+                                                                "how_found": "stream lineage threads (shared analyzer and provider, provider yields at every lookup)"})
+        else:
+            ctx.count("lineage-threads:runs-without-mismatch")
+
+
+def replay_threads(payload, attempts=6):
+    """the interleaving is not controlled: the recorded run is repeated until a mismatching call shows up (each mismatch is a violation by itself)"""
+    import os
+    os.environ["MSQ_REQ_TIMEOUT"] = "120"
+    for _ in range(attempts):
+        a = E.run_impl([payload["request"]], jobs=1)[0]
+        if a.startswith("OK ") and " mismatches=0" not in a:
+            print("implementation:", a[:700])
+            return 1
+    print("no mismatching call in %d runs:" % attempts, a[:200])
+    return 0
+
+
 def run(ctx):
     r = ctx.rng.fork("c17")
     ctx.cov["rule"] = ("A: every operation history `new` + up to %d operations over {new, nodisk, get n, death-after-creating-the-temporary-file n, death-during-write n} for %d name groups "
@@ -443,6 +515,7 @@ def run(ctx):
         ctx.sample({"dialect": d, "sql": t[:160], "impl": a[:200]})
 
     lineage_histories(ctx, r.fork("histories"))
+    lineage_threads(ctx, r.fork("threads"), runs=1 if ctx.quick else 6)
 
     # known findings: replay every witness on the implementation
     for f in ctx.findings:
@@ -463,6 +536,8 @@ def run(ctx):
 
 
 def replay(payload):
+    if payload.get("kind") == "lineage-threads":
+        return replay_threads(payload)
     if payload.get("kind") == "lineage-history":
         h = [tuple(x) for x in payload["history"]]
         ref = {}
